@@ -16,6 +16,7 @@ from collections import Counter
 from typing import Any
 
 from . import core
+from . import decomp_switch as dsw
 
 MODULES = ["ESV.Props.DecompFuel", "ESV.Props.DecompFront", "ESV.Props.DecompOpt", "ESV.Props.DecompBranches", "ESV.Props.DecompGroup"]
 THEOREMS = ["ESV.DecompFront.resolve_total", "ESV.DecompFront.resolve_preserves", "ESV.DecompFront.baseGraph_preserves",
@@ -37,6 +38,9 @@ THEOREMS += ["ESV.DecompFront.stepB_agrees", "ESV.DecompFront.stepB_agrees_after
              "ESV.Decomp.groupBranches_inverted_counterexample", "ESV.Decomp.groupBranches_two_else_counterexample",
              "ESV.Decomp.invertBranches_twice_counterexample", "ESV.Decomp.invertBranches_two_else_counterexample"]
 
+
+MODULES += dsw.MODULES
+THEOREMS += dsw.THEOREMS
 
 BB_EXAMPLES: list[dict] = []   # first real inputs on which build_branches alone changes behaviour (counted, see front_channels)
 
@@ -426,15 +430,20 @@ def front_channels(run: core.Run, pool: core.Pool, drv: core.Driver, sets: list[
         real += o if isinstance(o, list) else [None] * len(ch)
     # the answers of the heuristic search build_branches calls are an oracle input of the model: recorded from the real run
     model = drv.batch_parallel([dict({"op": "decomp.front", "rs": strip_ops(s["rs"])},
-                                     **({"answers": a["answers"]} if isinstance(a, dict) and "answers" in a else {}))
+                                     **({"answers": a["answers"]} if isinstance(a, dict) and "answers" in a else {}),
+                                     **({"sw_answers": a["sw_answers"]} if isinstance(a, dict) and "sw_answers" in a else {}))
                                 for s, a in zip(sets, real)], jobs)
     mism = 0
     vreqs, vidx = [], []
     answers_of: dict[int, Any] = {}
+    sw_answers_of: dict[int, Any] = {}
     for i, (s, a, b) in enumerate(zip(sets, real, model)):
         if a is None:
             cnt["impl_no_answer"] += 1
             continue
+        if "sw_answers" in a:
+            sw_answers_of[i] = a.pop("sw_answers")
+            dsw.count_switch(cnt, a, b, sw_answers_of[i])
         if "answers" in a:
             answers_of[i] = a.pop("answers")
             count_branches(cnt, a, answers_of[i])
@@ -584,6 +593,8 @@ def front_channels(run: core.Run, pool: core.Pool, drv: core.Driver, sets: list[
                         GB_EXAMPLES.append({"phase": phase, "rs": sets[i]["rs"], "routine": r, "verdict": w,
                                             "before": real[i]["bb" if phase != "invert" else "gb"][r],
                                             "after": real[i][{"bridge": "bb", "group": "gb", "invert": "ib"}[phase]][r]})
+    # fifth and sixth rewriting phase (build_and_group_switch_cases, group_switch_cases): harness/decomp_switch.py
+    mism += dsw.switch_channels(run, pool, drv, sets, real, sw_answers_of, jobs, cnt)
     mism += branches_graph_tie(run, pool, drv, 400, jobs, cnt)
     mism += group_graph_tie(run, pool, drv, 300, jobs, cnt)
     # environment model: igraph incident-edge order
